@@ -421,8 +421,37 @@ class _Optimize:
     curve_fit = staticmethod(curve_fit)
 
 
+def uniform_filter1d(x, size, axis=-1, output=None, mode="reflect", cval=0.0, origin=0):
+    """scipy.ndimage.uniform_filter1d, mode='reflect', origin 0: exact for the sizes the harnesses use."""
+    x = asarray(x)
+    n = len(x.d)
+    size = int(size)
+    if size < 1:
+        raise RuntimeError("incorrect filter size")
+    if size == 1:
+        return SymArray(list(x.d), x.dtype_tag)
+
+    def at(i):          # reflect: d c b a | a b c d | d c b a
+        while i < 0 or i >= n:
+            i = -i - 1 if i < 0 else 2 * n - 1 - i
+        return x.d[i]
+    left = size // 2
+    out = []
+    for j in range(n):
+        acc = Q(0)
+        for k in range(size):
+            acc = acc + at(j - left + k)
+        out.append(acc / size)
+    return SymArray(out, "f8")
+
+
+class _NDImage:
+    uniform_filter1d = staticmethod(uniform_filter1d)
+
+
 class SP:
     """Stand-in for `scipy` / `sp`."""
+    ndimage = _NDImage
     interpolate = _Interpolate
     integrate = _Integrate
     optimize = _Optimize
